@@ -437,7 +437,8 @@ class HistogramBase(abc.ABC):
 
     @frequencies.setter
     def frequencies(self, values: ArrayLike) -> None:
-        frequencies = np.asarray(values)
+        # A copy: the histogram owns its data (they may be the array of another one)
+        frequencies = np.array(values)
         if frequencies.shape != self.shape:
             raise ValueError("Values must have same dimension as bins.")
         if np.any(frequencies < 0):
@@ -491,7 +492,7 @@ class HistogramBase(abc.ABC):
 
     @errors2.setter
     def errors2(self, values: ArrayLike) -> None:
-        array: np.ndarray = np.asarray(values)
+        array: np.ndarray = np.array(values)  # a copy, see frequencies
         if array.shape != self.shape:
             raise ValueError("Square errors must have same dimension as bins.")
         if np.any(array < 0):
